@@ -18,6 +18,8 @@ import (
 //	           on a variable that is not an `int` — a folded constant expression / an inlined const: the fused
 //	           Increment does not apply Store's coercion to the variable's type in relaxed mode (C03 proves
 //	           fused = unfused for numeric literal constant steps only)
+//	/*PAR*/    a parallel assignment `x, y = a, b` to locals of a function that qualifies for registers: with
+//	           registers on the program does not compile (`assignment mismatch: 0 variables but 2 values`)
 //
 // c02Neutralize removes the effect of the marked statements: declarations declare a fresh name instead,
 // uses and steps are deleted.
@@ -30,7 +32,7 @@ func c02Neutralize(src string, markers ...string) string {
 				continue
 			}
 
-			if m == "/*OOS*/" || m == "/*NCSTEP*/" {
+			if m == "/*OOS*/" || m == "/*NCSTEP*/" || m == "/*PAR*/" {
 				l = ""
 			} else if k := strings.Index(l, ":="); k > 0 {
 				l = fmt.Sprintf("    neutral%d %s", i, l[k:])
@@ -43,7 +45,7 @@ func c02Neutralize(src string, markers ...string) string {
 	return strings.Join(lines, "\n")
 }
 
-var c02AllMarkers = []string{"/*LATE*/", "/*SHADOW*/", "/*OOS*/", "/*NCSTEP*/"}
+var c02AllMarkers = []string{"/*LATE*/", "/*SHADOW*/", "/*OOS*/", "/*NCSTEP*/", "/*PAR*/"}
 
 func c02Diverges(name, src string, mode int, testMode bool) bool {
 	ref := c02Run(c02Cfg{Mode: mode}, name, src, testMode)
@@ -99,6 +101,10 @@ func c02Classify(name, src string, mode int, testMode bool, base c02Result) stri
 
 		if !flipDiffers(c02Neutralize(src, "/*SHADOW*/", "/*OOS*/"), "regs") {
 			return "regs:shadow-const"
+		}
+
+		if !flipDiffers(c02Neutralize(src, "/*PAR*/"), "regs") {
+			return "regs:parallel-assign"
 		}
 	case "opt1", "opt2", "combo":
 		// only the optimizer level and const folding vary (registers and the cache stay off)
